@@ -134,6 +134,30 @@ def run(F, R):
             "-", "sites %s" % core_sites[:6], "static execute_once does not drain QueryEnvInner.errors")
     R.check(any("dynamic::schema" in s for s in core_sites), "R03.3", "dynamic:execute_once-drains-errors", "-", "dynamic schema drains",
             "dynamic execute path does not drain QueryEnvInner.errors")
+    # every path that resolved something and reaches the return passes the drain (errors absorbed at nullable positions are reported
+    # whether or not another error later propagated to the root)
+    for b, c in drains:
+        if not (b.defp.startswith("async_graphql::") and re.search(r"execute_once|::execute::", b.defp)):
+            continue
+        mine = [cc.bb for bb_, cc in ((0, x) for (y, x) in drains if y is b)]
+        resolves = [x for x in b.calls() if x.callee and re.search(r"resolver_utils::container::resolve_container(_serial)?$|dynamic::resolve::resolve_container$|OutputType::resolve$", x.declared or x.callee)]
+        RES_RX = r"resolver_utils::container::resolve_container(_serial)?$|dynamic::resolve::resolve_container$"
+        for (cbb, cdef, st) in b.closures_created():
+            cb = F.get(cdef)
+            if cb and any(x.callee and re.search(RES_RX, x.callee) for y in F.with_nested(cb) for x in y.calls()):
+                class _P:
+                    pass
+                p_ = _P(); p_.bb = cbb; p_.where = (lambda st_=st: "%s:%s" % (b.file, st_[2]))
+                resolves.append(p_)
+        bad = []
+        for r_ in resolves:
+            after = b.reachable_after(r_.bb, avoid=mine)
+            if any(e in after for e in b.exits()):
+                bad.append(r_.where())
+        key = re.sub(r"\{closure#\d+\}", "{c}", re.sub(r"\{impl#\d+\}", "{impl}", b.defp.replace("async_graphql::", "")))
+        R.check(bool(resolves) and not bad, "R03.3", "drain-on-every-path-after-resolution:" + key, c.where(), "%d resolution sites, all followed by the drain" % len(resolves),
+                "after the root was resolved (%s) the return is reachable without draining QueryEnvInner.errors: errors absorbed at nullable positions are lost "
+                "when another error propagates to the root" % bad[:2])
     sub_sites = [s for s in sites if "create_field_stream" in s]
     R.check(bool(sub_sites), "R03.3", "Subscription-expansion:per-event-drain", "-", "sites %s" % sub_sites[:3],
             "Subscription expansion does not drain errors per event")
@@ -218,6 +242,27 @@ def run(F, R):
                         "item's path `[list, i]` instead of `[list, i, field]`")
     R.floor("R03.6", "set_error_path sites in the executors", n6, 10)
 
+    # ------------------------------------------------------------ R03.7
+    R.rule("R03.7", "no delegated error is discarded: in the executor cones and in every container expansion (MergedObject, MergedSubscription, Object, "
+                    "SimpleObject, ComplexObject, Interface, Union) a Result<_, ServerError> is never matched in a way whose non-Ok side drops the error "
+                    "(`if let Ok(..) = delegated.resolve_field(ctx).await`): the error must flow on through `?`, map_err, add_error or the return value")
+    n7 = 0
+    for b in F.bodies.values():
+        mac = macro_of(b)
+        if not (mac in ("MergedObject", "MergedSubscription", "Object", "SimpleObject", "ComplexObject", "Interface", "Union", "Subscription")
+                or re.match(r"async_graphql::(resolver_utils|types::(merged_object|query_root|external)|dynamic::resolve|schema::|subscription)", b.defp)):
+            continue
+        if "::tests::" in b.defp or not any("ServerError" in t for t in b.locals):
+            continue
+        n7 += 1
+        for bb, l in _discarded_errors(F, b):
+            key = re.sub(r"\{closure#\d+\}", "{c}", re.sub(r"\{impl#\d+\}", "{impl}", b.defp.replace("async_graphql::", "")))
+            R.violation("R03.7", "error-discarded:%s%s" % ((mac + ":") if mac else "", key), "%s:%s" % (b.file, b.stmts(bb)[-1][2] if b.stmts(bb) else b.line),
+                        "a Result<_, ServerError> is matched and its Err side continues without using the error: a failing field is reported as absent / null with no "
+                        "error entry (e.g. a MergedObject member whose resolver fails)")
+    R.floor("R03.7", "bodies handling ServerError results", n7, 40)
+    R.check(True, "R03.7", "error-results-examined", "-", "%d bodies with ServerError-typed locals examined" % n7, "")
+
     # ------------------------------------------------------------ R03.5
     R.rule("R03.5", "guards run before the resolver: in every Object/ComplexObject/SimpleObject/Subscription expansion that "
                     "calls Guard::check, the check dominates the user method call / field read and its Err is propagated")
@@ -236,3 +281,38 @@ def run(F, R):
             R.check(bool(brs), "R03.5", "guard-propagated:" + re.sub(r"\{closure#\d+\}", "{c}", b.defp), "%s:%s" % (b.file, g.line),
                     "guard result goes through `?`", "guard result is not propagated")
     R.floor("R03.5", "Guard::check call sites in expansions", n, 4)
+
+
+def _discarded_errors(F, b):
+    """switches on the discriminant of a Result<_, ServerError> local whose non-Ok side never reads the Err payload"""
+    out = []
+    for bb, t in b.switches():
+        d = b.disc_of_switch(bb)
+        if not d:
+            continue
+        place, adt, vmap = d
+        if not adt.endswith("result::Result") or len(place) != 1:
+            continue
+        ty = b.locals[place[0]]
+        if "ServerError" not in ty or "Result<" not in ty:
+            continue
+        arms = {vmap.get(v, v): tgt for v, tgt in t[2]}
+        ok_t = arms.get("Ok")
+        err_starts = [tgt for name, tgt in arms.items() if name == "Err"]
+        if not err_starts and t[3] is not None and not b.is_unreachable_block(t[3]):
+            err_starts = [t[3]]
+        if not err_starts:
+            continue
+        region = set()
+        for s_ in err_starts:
+            region |= b.reachable(s_, avoid=[bb])
+        if ok_t is not None:
+            region -= b.reachable(ok_t, avoid=[bb]) if ok_t not in err_starts else set()
+        reads = False
+        for x in region | set(err_starts):
+            txts = [str(st) for st in b.stmts(x)] + [str(b.term(x))]
+            if any(("[%d, '@Err'" % place[0]) in tx for tx in txts):
+                reads = True
+        if not reads:
+            out.append((bb, place[0]))
+    return out
